@@ -28,6 +28,12 @@ func gen(t *rapid.T) Case {
 	c.SrcSame = rapid.Bool().Draw(t, "srcsame")
 	c.SrcNoDatum = rapid.IntRange(0, 2).Draw(t, "srcnodatum") == 1
 	c.Lon, c.Lat = projkit.GenPosition(t, c.Dst)
+	if c.Dst.HasShift() && math.Abs(c.Lat) > 86 {
+		// through a datum shift the round trip loses the height gained in the shift (a 2-D API): with the largest shifts
+		// drawn here (100 m, 1 arc second) that is up to 2 mm on the ground, and 2 mm are 1e-6 degrees of longitude at
+		// latitude 89 - three times less at 86
+		c.Lat = math.Copysign(86, c.Lat)
+	}
 	switch c.Dst.Proj {
 	case "lcc", "aea", "eqdc":
 		// "cone-side latitudes": the whole hemisphere of the standard parallels, not only their neighbourhood, and (one
@@ -46,8 +52,10 @@ func gen(t *rapid.T) Case {
 		switch mode {
 		case 0, 1:
 			c.Lat = sign * rapid.Float64Range(1, 89.9).Draw(t, "widelat")
-		case 2:
-			d := rapid.SampledFrom([]float64{0.1, 0.01, 0.001, 0.0005, 0.0003, 0.0002}).Draw(t, "poledist") * rapid.Float64Range(1, 1.5).Draw(t, "polef")
+		case 2, 3:
+			// (the innermost ring three times: an inverse whose corrections only halve from step to step this close to the
+			// pole shows what its stopping rule leaves behind only there)
+			d := rapid.SampledFrom([]float64{0.1, 0.01, 0.001, 0.0005, 0.0003, 0.0002, 0.0002, 0.0002}).Draw(t, "poledist") * rapid.Float64Range(1, 1.5).Draw(t, "polef")
 			c.Lat = sign * (90 - d)
 		}
 	}
